@@ -17,7 +17,9 @@ and that the outcome does not depend on arrival order. It then checks by value-o
 `add` calls the function with (own id, new connection's id, existing origin, new origin) in this
 order and acts on true/false as replace/keep (C04 words), that add_peer passes the endpoint's own
 id, and that accepted connections are tagged Inbound and dialed ones Outbound all the way into
-Connection.origin. Decides the table and its wiring for all paths; convergence over time is dynamic.
+Connection.origin. The loser's clean-up cannot disturb the winner (C04.2d / C04.4 re-evaluated) and nothing re-dials a quiet pair: dials
+start only from the application's ConnectRequest and the periodic connectivity check, never from a connection ending.
+Decides the table and its wiring for all paths; convergence over time is dynamic.
 """
 TRUSTED = ["derived Ord on PeerId([u8;32]) is a total order shared by both sides"]
 NOT_DECIDED = ["quiescence ('no further events once the network is quiet')", "RPC success after convergence",
